@@ -36,7 +36,7 @@ From Coq Require Import Permutation.
 From AQ Require Import Trie.SecureModel.   (* first: its record `strie` must not shadow TrieModel.strie *)
 From AQ Require Import Lib.Bytes Lib.Keccak Rlp.RlpSpec Trie.MptSpec Trie.TrieModel Trie.TrieInv
   Trie.MptSpecProofs Trie.TrieCodecDefs Trie.TrieFlagsProofs Trie.TrieTheorems Trie.TrieReopenProofs Trie.TrieProveProofs
-  Trie.TrieLazyDefs Trie.TrieFitsProofs Trie.TrieLazyTheorems Import.DeriveShaCode Trie.RootInjProofs Trie.SecureProofs Trie.IterModel Trie.TrieIterProofs Trie.IterProofs.
+  Trie.TrieLazyDefs Trie.TrieFitsProofs Trie.TrieLazyTheorems Import.DeriveShaCode Trie.RootInjProofs Trie.SecureProofs Trie.IterModel Trie.TrieIterProofs Trie.IterProofs Trie.DbModel Trie.DbProofs Generated.GenTrieParams.
 Local Open Scope N_scope.
 
 (* TryGet returns exactly the content and leaves the trie unchanged *)
@@ -338,6 +338,40 @@ Theorem C10_content_sorted : forall m, canon m = true ->
 Proof. exact content_sorted. Qed.
 Print Assumptions C10_content_sorted.
 
+(* trie/database.go, the two layers behind the node database (Trie/DbModel.v): memory
+   layer with child references, disk store, Database.Commit(root) = commit through a write
+   batch flushed whenever ValueSize >= limit (aquadb.IdealBatchSize), final Write, uncache.
+   BATCHING IS UNOBSERVABLE: the result does not depend on the limit at all (full) *)
+Theorem C10_db_commit_limit_irrelevant : forall fuel l1 l2 m pre d root,
+  tdb_commit fuel l1 m pre d root = tdb_commit fuel l2 m pre d root.
+Proof. exact tdb_commit_limit_irrelevant. Qed.
+Print Assumptions C10_db_commit_limit_irrelevant.
+
+(* ... in particular at the constant the code uses today (regenerated by the translator
+   from aquadb.IdealBatchSize on every run) the commit equals the batch-free one-shot
+   write of the post-order listing of the reachable nodes *)
+Theorem C10_db_commit_at_ideal_batch_size : forall fuel m pre d root,
+  tdb_commit fuel ideal_batch_size m pre d root =
+  bind (db_collect fuel m root) (fun ps =>
+    Ok (db_uncache fuel m root, fold_left disk_put ps (fold_left disk_put pre d))).
+Proof. intros. apply tdb_commit_char. Qed.
+Print Assumptions C10_db_commit_at_ideal_batch_size.
+
+(* after Commit the disk holds every node reachable from the root through the child
+   references, with its memory blob, and is unchanged elsewhere; and no reader can tell
+   the difference: Database.Node (memory first, then disk) answers as before (full) *)
+Theorem C10_db_commit_disk : forall fuel limit m d root m' d',
+  tdb_commit fuel limit m [] d root = Ok (m', d') ->
+  (forall h n, reach m root h -> mem_get m h = Some n -> disk_get d' h = Some (mn_blob n)) /\
+  (forall k, ~ reach m root k -> disk_get d' k = disk_get d k).
+Proof. exact tdb_commit_disk. Qed.
+Print Assumptions C10_db_commit_disk.
+
+Theorem C10_db_commit_readers_unaffected : forall fuel limit m d root m' d',
+  tdb_commit fuel limit m [] d root = Ok (m', d') -> forall h, tdb_node m' d' h = tdb_node m d h.
+Proof. exact tdb_commit_node. Qed.
+Print Assumptions C10_db_commit_readers_unaffected.
+
 (* reopening a committed root, over the database of the commit or any later one *)
 Theorem C10_reopen_step : forall H : bytes -> bytes,
   (forall x, length (H x) = 32%nat) ->
@@ -505,6 +539,19 @@ Example C10_example_iterator :
       (map fst l1, map fst l2) = ([doge; dog; do_; horse], [horse])
     | _, _ => False
     end
+  | _ => False
+  end.
+Proof. vm_compute. reflexivity. Qed.
+
+(* non-vacuity of the database-layer theorems: a memory layer with a shared child, committed
+   with a limit that forces two intermediate flushes, succeeds, empties the reachable part of
+   the memory layer and puts all three reachable nodes on disk *)
+Example C10_example_db_commit :
+  let m := [([x01], mkMnode [xaa; xbb; xcc] [[x02]; [x03]]); ([x02], mkMnode [xdd] [[x03]]);
+            ([x03], mkMnode [xee; xee] []); ([x09], mkMnode [x77] [])] in
+  match tdb_commit 10 3 m [] [([x05], [x00])] [x01] with
+  | Ok (m', d') => (map fst m', disk_get d' [x01], disk_get d' [x02], disk_get d' [x03], disk_get d' [x05])
+                   = ([[x09]], Some [xaa; xbb; xcc], Some [xdd], Some [xee; xee], Some [x00])
   | _ => False
   end.
 Proof. vm_compute. reflexivity. Qed.
